@@ -43,6 +43,9 @@ def c03_jobs(tier):
         for tt in sa_tiers(t, k):
             jobs.append(job(MSG, "HCodecRoundTrip", [tt, k, 0], wall_ms=1200000))
     jobs.append(job(MSG, "HCodecRoundTrip", [0, 0]))
+    if tier == "thorough":
+        for k in (44, 45):
+            jobs.append(job(MSG, "HCodecRoundTrip", [7, k, 0], wall_ms=1200000))  # 255 selectors
     # pairs at minimal size: every kind first / last
     pairs = [(a, b) for a in PAYLOAD_KINDS for b in PAYLOAD_KINDS] if tier == "thorough" else \
         [(PAYLOAD_KINDS[i], PAYLOAD_KINDS[(i + 1) % len(PAYLOAD_KINDS)]) for i in range(len(PAYLOAD_KINDS))]
@@ -611,7 +614,7 @@ PROPS = {
     "C01": dict(jobs=c01_jobs, claim="For every suite, sender role and header mode, and every message shape within the bounds, the solver shows that unprotecting a protected message returns the original header fields and payloads for all field values, all key octets and all outcomes of the random IV and padding; the no-key path equals plain encode/decode. Bounded model checking is the right level: the code is straight-line byte arithmetic around opaque primitives, and the quantifier (all keys, all randomness) cannot be sampled.", bounds=lambda t: "9 suites x 2 sender roles x header {nil, parsed}; messages of 0, 1 and 2 payloads at minimal shape (tier 0 generator)" + ("" if t == "quick" else "; every payload kind alone and in 15 ordered pairs"),
                 outside="longer data, more than two payloads, larger nested shapes", assumptions=CRYPTO_ASSUME),
     "C03": dict(jobs=c03_jobs, claim="For every message shape within the bounds the solver shows Decode(Encode(m)) == m field by field for all field values at once (all 2^16 attribute types, all SPI contents, all ports and addresses), which pinned vectors cannot cover.", bounds=lambda t: "every payload kind alone at the %s shape set of the generator, the empty message, %s ordered pairs at minimal shape, EAP methods, EAP-AKA' attribute subsets of size %s" % (("quick", "15", "<= 2") if t == "quick" else ("thorough", "225", "<= 7")),
-                outside="opaque data longer than 24 octets, more than 2 payloads, more than 2 proposals / 3 transforms / 3 selectors"),
+                outside="opaque data longer than 24 octets, more than 2 payloads, more than 2 proposals / 3 transforms / 3 selectors (thorough: also the 255-selector TS payloads)"),
     "C04": dict(jobs=c04_jobs, claim="Every decoding entry point (ParseHeader, IKEMessage.Decode, the payload chain walker with a symbolic first type, each of the 16 payload body decoders, EAP.Unmarshal and the five EAP method bodies, DecodeDecrypt with and without keys and with the header nil or parsed from the same bytes, IKECrypto.Decrypt) is executed symbolically on an arbitrary buffer of every length up to the bound, with symbolic spare capacity behind it; every index, slice, make, nil and type-assertion obligation, the no-over-read obligation (no re-slice of the input beyond its length), 'input unchanged afterwards' and, per input-consuming loop, either an unwinding assertion (unrolled) or a strictly decreasing variant (one iteration from an arbitrary loop-head state: cut mode) is discharged by the solver for all contents.",
                 bounds=lambda t: ("cut mode (chain walker, SA proposals / transforms, TS selectors, CP attributes, EAP-AKA' attributes): every length 0..%d; loops unrolled: bodies 0..%d (SA 0..%d, TS/CP 0..%d, EAP / EAP-AKA' 0..%d), header 0..40, whole message 0..%d, chain 0..%d; cipher 0..%d for 3 key sizes; unprotection with keys: Encrypted payload spanning the datagram 0..%d octets (%s suites, both roles, inner chain in cut mode), arbitrary chains 0..36; without keys 0..36 unrolled and 28..%d cut"
                                   % ((64, 32, 20, 24, 12, 36, 8, 64, 96, 3, 92) if t == "quick" else (160, 64, 26, 40, 16, 38, 10, 96, 128, 9, 188))),
